@@ -208,10 +208,12 @@ CHECKS.update({
              "lemma (decode(encode(line)) == line unless the line is whitespace-only or a lone '.') is proved for all lines; the list "
              "writers _SpaceSeparated.to_str (pattern lists) and _LineBased.to_str are verified from their ASTs against recursive "
              "specifications (values stripped, in order, joined by one blank / on lines of their own; format error exactly for "
-             "empty values, values with whitespace resp. newlines); the decoder "
-             "loop, the join/splitlines law and whole copyright documents (dump -> strict parse -> dump) are decided by a bounded stand-in: "
+             "empty values, values with whitespace resp. newlines); the decoder parse_multiline_as_lines is verified from its AST against "
+             "the recursive per-line decoding of s.splitlines() (in-place edit while enumerating; format error exactly when a later "
+             "line lacks the leading blank; str.splitlines uninterpreted); "
+             "the join/splitlines law and whole copyright documents (dump -> strict parse -> dump) are decided by a bounded stand-in: "
              "all line lists of length <= 3/4 over 14 line kinds and seeded documents.",
-        technique="contract-based deductive verification of the encoder + lemma (SMT) and a bounded stand-in for decoder and documents"),
+        technique="contract-based deductive verification of encoder, decoder and list writers + round-trip lemma (SMT) and a bounded stand-in for the join/splitlines law and documents"),
  "C17-old": bounded_only("the multiline codec is checked on all line lists of length <= 3/4 over 14 line kinds, and seeded copyright documents are "
         "dumped, strictly re-parsed and re-dumped;", "DESIGN.md §5 C17"),
  "C19": dict(bounded_only("", "DESIGN.md §5 C19"),
